@@ -208,7 +208,7 @@ pub fn sample_set(rng: &mut Rng, p: &Params, shape: &Shape) -> SampleSet {
         let div = if si == 0 {
             0
         } else if many && rng.chance(2, 3) {
-            *rng.pick(&[30u64, 60, 100])
+            *rng.pick(&[8u64, 15, 30])
         } else {
             *rng.pick(&[0u64, 1, 3, 10, 30, 100])
         };
